@@ -753,6 +753,14 @@ func (b *bgen) injectScenario(name string, rootDefs, paths M, aux map[string]M, 
 		if g.p(0.5) {
 			paths["/scn/twins2"] = M{"get": resp(M{"type": "array", "items": refTo(up)}), "post": resp(M{"type": "object", "additionalProperties": refTo(lo)})}
 		}
+		if g.p(0.6) {
+			// a recursive definition of the same document that refers to both twins: its cycle survives Expand, so that
+			// the twins are met in one import pass there too
+			local := func(n string) M { return M{"$ref": "#/definitions/" + jsonPtrEscape(n)} }
+			aux[ap]["definitions"].(M)["twinNode"] = M{"type": "object", "properties": M{"next": local("twinNode"), "lo": local(lo), "up": local(up)}}
+			paths["/scn/twins3"] = M{"get": resp(refTo("twinNode"))}
+			g.hit("scenario:case-twins-in-cycle")
+		}
 		g.hit("scenario:case-twins")
 	case "digit-siblings":
 		// an imported $ref-free definition that collides with a root definition and is referred to from sibling properties
